@@ -90,9 +90,13 @@ CLAIMED["C02"] = dict(
          "duplicated / nonsensical ones, T3 expiries, deferred transmit tasks): cwnd >= 1 MTU; 0 <= flight size <= "
          "bytes really in flight (hence 0 when nothing is outstanding); whenever anything is outstanding or queued "
          "the T3 timer is armed or a transmit task is scheduled, and queued data never waits behind an empty sent "
-         "queue; the invariant is inductive from any state. PARTIAL: termination of the healing rounds (quiescence "
-         "within bounded time after the network heals) is observed on the two-endpoint simulator (fault prefix + "
-         "fault-free suffix) but not proved; real time (RTO) is outside every theorem.",
+         "queue; the invariant is inductive from any state; NO REACHABLE STATE IS WEDGED: from every reachable "
+         "state the fault-free continuation (peer acknowledges the last TSN sent, pending transmit task runs) "
+         "reaches quiescence - sent and outbound queue empty, flight size 0 - within 2*(outstanding+queued) inputs, "
+         "by a TSN-order invariant (queue TSNs are the consecutive run after max(last SACKed, advanced ack point)) "
+         "and a decreasing measure (5 theorems). PARTIAL: that the REAL peer and a fault-free network produce such "
+         "a continuation within bounded time is observed on the two-endpoint simulator (fault prefix + fault-free "
+         "suffix), not proved; real time (RTO) is outside every theorem.",
     design_ref="5 / C02",
     note="Sender model tied to a real RTCSctpTransport (ESTABLISHED; _send_chunk, timers, ensure_future recorded) by "
          "differential runs comparing outputs and the full sender state after every input; lost DATA needs no input "
